@@ -71,7 +71,13 @@ def collect(ex, final):
         for msg in r.contract:
             out.append(V(ex, 'gateway-contract', cls + '|' + contract_class(msg),
                          '%s ?%s: %s' % (r.method, r.query, msg)))
-        if r.exc is not None:
+        if isinstance(r.exc, UnicodeEncodeError) and any(
+                x.get('unencodable') for s_ in ex.sessions for x in s_.app_sent):
+            # (F37) the application sent text that UTF-8 cannot carry (a lone surrogate, as
+            # decoded from a client's JSON string and echoed back)
+            out.append(V(ex, 'exception-escaped', 'unencodable-text-queued|UnicodeEncodeError',
+                         '%s ?%s: %r' % (r.method, r.query, r.exc)))
+        elif r.exc is not None:
             out.append(V(ex, 'exception-escaped', cls + '|' + type(r.exc).__name__,
                          '%s ?%s (body %r): %r' % (r.method, r.query, (r.body or b'')[:30], r.exc)))
         if r.done and r.exc is None and r.status not in OK_STATUS:
@@ -171,7 +177,9 @@ PROFILE = {
                 'ws_fail': 1, 'pong': 1, 'app_send': 2, 'app_disconnect': 3, 'advance': 2,
                 'fault': 1, 'vanish': 1, 'request': 9},
     'max_sessions': 3,
-    'reactions': [('echo', 30)],     # the message handler itself calls send() before returning
+    # the message handler itself calls send() before returning (sometimes echoing text that
+    # holds a lone surrogate)
+    'reactions': [('echo', 30), ('echo-surrogate', 8)],
     'packet_kinds': [('msg', 3), ('pong', 1), ('close', 1), ('upgrade', 1), ('bad', 3), ('noise', 1)],
     'post_modes': [('pkts', 5), ('raw', 3), ('many', 1)],
     'config': {'compression_threshold': st.sampled_from([0, 1024]),
